@@ -67,6 +67,7 @@ def run(ctx, sess, P, G, T, reach, roots, exc):
     c10c.r15(ctx, P)
     c10c.r16(ctx, P)
     c10c.r17(ctx, P)
+    c10c.r17b(ctx, P)
     c10c.r18(ctx, P)
     c10c.r19(ctx, P)
     c10c.r20(ctx, P)
